@@ -33,3 +33,8 @@ func VerifSessionCount() int {
 	defer sessionsLock.Unlock()
 	return len(sessions)
 }
+
+// VerifCleanSessions runs the session cleaner once.
+func VerifCleanSessions() {
+	_ = cleanSessions(module.Ctx, nil)
+}
